@@ -49,6 +49,9 @@ def cases(rng, tier, feats, drv_ok):
     out = []
     for _ in range(12 if tier == 'quick' else 120):
         b = rand_pi(rng); nf = rng.choice([0, 9, 100])
+        # (half of the bases: the padding cell IS a cell of the main page — what the real parser produces — so that a digest deriving the
+        # padding from the page instead of from the field would not notice a changed padding value / address)
+        if b['page'] and rng.chance(1, 2): b['pad'] = list(b['page'][rng.below(len(b['page']))])
         base = line(b, nf)
         out.append({'line': base, 'kind': 'base', 'aux': [base], 'bound': 'equal'})
         def mut(kind, f, bound=True, nf2=None):
